@@ -14,6 +14,7 @@ import (
 	"fmt"
 	"hash/crc32"
 	"io"
+	"iter"
 	"sort"
 	"strings"
 	"time"
@@ -294,7 +295,10 @@ func coqOptStr(b []byte, ok bool) string {
 
 // ---------------------------------------------------------------- independent entry walker
 
-type rowEntries struct{ fields, tokens, fieldTokens []string }
+type rowEntries struct {
+	fields, tokens, fieldTokens []string
+	tok                         func(string) []string // nil: the default tokenizer's definition
+}
 
 func (e *rowEntries) coq() string {
 	return fmt.Sprintf("(%s, %s, %s)", coqStrList(e.fields), coqStrList(e.tokens), coqStrList(e.fieldTokens))
@@ -305,10 +309,13 @@ func (e *rowEntries) coq() string {
 // lower-cased whitespace-separated words of every leaf text as tokens, and
 // path::token pairs. Written from the documented semantics over
 // encoding/json's token stream (neither gjson nor the engine's walker).
-func walkEntries(row []byte) (*rowEntries, error) {
+func walkEntries(row []byte) (*rowEntries, error) { return walkEntriesWith(row, nil) }
+
+// walkEntriesWith is walkEntries under the harness's own definition tok of the configured tokenizer.
+func walkEntriesWith(row []byte, tok func(string) []string) (*rowEntries, error) {
 	dec := json.NewDecoder(bytes.NewReader(row))
 	dec.UseNumber()
-	out := &rowEntries{}
+	out := &rowEntries{tok: tok}
 	if err := walkEntryValue(dec, "", out); err != nil {
 		return nil, err
 	}
@@ -323,7 +330,13 @@ func (e *rowEntries) leaf(path, text string, hasText bool) {
 	if !hasText {
 		return
 	}
-	for _, tok := range strings.Fields(strings.ToLower(text)) {
+	var toks []string
+	if e.tok != nil {
+		toks = e.tok(text)
+	} else {
+		toks = strings.Fields(strings.ToLower(text))
+	}
+	for _, tok := range toks {
 		e.tokens = append(e.tokens, tok)
 		e.fieldTokens = append(e.fieldTokens, path+"::"+tok)
 	}
@@ -566,6 +579,8 @@ type tWorld struct {
 	store *memDataStore
 	rows  map[int]map[string]any // by id
 	json  map[int][]byte         // the harness's own json.Marshal of each row
+	// walkTok is the harness's own definition of the world's configured tokenizer (nil: the default one)
+	walkTok func(string) []string
 }
 
 func (c *Ctx) tNewWorld(tc tConfig) *tWorld {
@@ -618,6 +633,31 @@ func (w *tWorld) stop() {
 	ctx, cancel := context.WithTimeout(context.Background(), 20*time.Second)
 	defer cancel()
 	w.eng.Stop(ctx)
+}
+
+// legacyMetaStore serves another MetaStore's files the way a writer from before construction-time
+// normalization recorded them: uncompressed blocks carry the empty Compression value, which the read
+// path documents as equal to "none" (engine.go: normalizeCompression). Everything else is passed through;
+// the yielded block slices are copies, the underlying store's metadata is not touched.
+type legacyMetaStore struct{ bs.MetaStore }
+
+func (l legacyMetaStore) GetMaybeFilesForQuery(ctx context.Context, q *bs.QueryPrefilter) iter.Seq2[bs.MaybeFile, error] {
+	return func(yield func(bs.MaybeFile, error) bool) {
+		for f, err := range l.MetaStore.GetMaybeFilesForQuery(ctx, q) {
+			if err == nil {
+				blocks := append([]bs.DataBlockMetadata(nil), f.Metadata.DataBlocks...)
+				for i := range blocks {
+					if blocks[i].Compression == bs.CompressionNone {
+						blocks[i].Compression = ""
+					}
+				}
+				f.Metadata.DataBlocks = blocks
+			}
+			if !yield(f, err) {
+				return
+			}
+		}
+	}
 }
 
 type tFile struct {
